@@ -694,12 +694,44 @@ class Evaluator:
             self.emit("return", TRUE, t, fn.body)
             fall = FALSE
         else:
-            fall = self.block(fn.body, TRUE)
+            fall = self.block(self._split_filled_displays(fn.body), TRUE)
             self._normalise_search_loops()
             self._normalise_accumulators()
         return Summary(self.qual, self.module, fn, params, defaults, annotations, self.events, self.loops,
                        self.tries, self.env, fall, self.lambdas, self.nested, self.is_generator, kwarg, vararg,
                        self.alloc_comps, list(dict.fromkeys(self.inlined)), dict(self.rec_types), dict(self.unpacked))
+
+    @staticmethod
+    def _split_filled_displays(body):
+        """`xs = [<comprehension or display>]` followed somewhere by `xs.extend(...)` / `xs.append(...)` is the accumulator
+        `xs = []; xs.extend([<comprehension or display>])`: the first fill is a phase like the later ones (a list that is
+        bound to a comprehension and then grown in place must not be read as the comprehension alone)."""
+        MUT = {"append", "extend", "insert"}
+        grown = set()
+        for st in body:
+            for x in ast.walk(st):
+                if isinstance(x, ast.Call) and isinstance(x.func, ast.Attribute) and x.func.attr in MUT and isinstance(x.func.value, ast.Name):
+                    grown.add(x.func.value.id)
+        if not grown:
+            return body
+        out = []
+        for st in body:
+            tgt = None
+            if isinstance(st, ast.Assign) and len(st.targets) == 1 and isinstance(st.targets[0], ast.Name):
+                tgt = st.targets[0].id
+            elif isinstance(st, ast.AnnAssign) and isinstance(st.target, ast.Name) and st.value is not None:
+                tgt = st.target.id
+            val = getattr(st, "value", None)
+            if tgt in grown and (isinstance(val, ast.ListComp) or (isinstance(val, ast.List) and val.elts)):
+                empty = ast.Assign(targets=[ast.Name(id=tgt, ctx=ast.Store())], value=ast.List(elts=[], ctx=ast.Load()))
+                fill = ast.Expr(value=ast.Call(func=ast.Attribute(value=ast.Name(id=tgt, ctx=ast.Load()), attr="extend", ctx=ast.Load()), args=[val], keywords=[]))
+                for n_ in (empty, fill):
+                    ast.copy_location(n_, st)
+                    ast.fix_missing_locations(n_)
+                out += [empty, fill]
+            else:
+                out.append(st)
+        return out
 
     def _normalise_accumulators(self):
         """`out = []` filled by exactly one `out.append(v)` in a for loop and not otherwise touched until the loop
@@ -714,6 +746,19 @@ class Evaluator:
             al = next((x for x in als if any(y == x for y in walk(m.term))), None)
             if al is None:
                 continue  # first use is a test on the (still empty) accumulator, not a fill
+            # `if c: out.append(a) / else: out.append(b)` in one loop is one append of `a if c else b`
+            if len(uses) >= 2 and al[1] == "list":
+                m2 = uses[1]
+                app = ("attr", al, "append")
+                if m.kind == m2.kind == "call" and m.term[1] == m2.term[1] == app and len(m.term[2]) == len(m2.term[2]) == 1 and not m.term[3] \
+                        and not m2.term[3] and m.loops == m2.loops and m.loops and m.handlers == m2.handlers and m.in_handler == m2.in_handler:
+                    c1, c2 = list(conjuncts(m.live)), list(conjuncts(m2.live))
+                    if len(c1) == len(c2) and c1[:-1] == c2[:-1] and c1 and NOT(c1[-1]) == c2[-1] and c1[-1][0] != "inloop" \
+                            and not any(x == al for x in walk(c1[-1])):
+                        m.term = ("call", app, (ITE(c1[-1], m.term[2][0], m2.term[2][0]),), ())
+                        m.live = AND(*c1[:-1]) if c1[:-1] else TRUE
+                        self.events.remove(m2)
+                        uses = [e for e in uses if e is not m2]
             if al[1] == "list" and self._normalise_multi_fill(al, outer, uses):
                 continue
             elt = None
@@ -1989,6 +2034,19 @@ class Evaluator:
             # the default element type spelled out
             named = [(k_, v_) for k_, v_ in named if not (k_ == "dtype" and v_ in (("builtin", "float"), ("ext", "numpy.float64"), ("ext", "numpy.double"),
                                                                                   ("const", "float64"), ("const", "float"), ("const", None)))]
+        # numpy: the function form of a method (np.argmax(x, axis=1) is x.argmax(axis=1)); joining columns
+        # (np.concatenate((a, b), axis=1 | -1), np.column_stack((a, b)), np.hstack of 2-D blocks are np.c_[a, b] for matrices)
+        if f[0] == "ext" and f[1] in ("numpy.argmax", "numpy.argmin", "numpy.sum", "numpy.astype") and len(args) == 1 and not spreads \
+                and not any(a[0] == "star" for a in args):
+            f, args = ("attr", args[0], f[1].split(".")[1]), []
+        if f in (("ext", "numpy.logical_not"), ("ext", "numpy.invert")) and len(args) == 1 and not named and not spreads and args[0][0] != "star":
+            return ("invert", args[0])  # ~x on a boolean array
+        if f == ("ext", "numpy.concatenate") and len(args) == 1 and args[0][0] in ("tuple", "list") and len(args[0][1]) >= 2 and not spreads \
+                and dict(named).get("axis") in (("const", 1), ("const", -1)) and len(named) == 1 and not any(c_[0] == "star" for c_ in args[0][1]):
+            return ("sub", ("ext", "numpy.c_"), ("tuple", tuple(args[0][1])))
+        if f == ("ext", "numpy.column_stack") and len(args) == 1 and args[0][0] in ("tuple", "list") and len(args[0][1]) >= 2 and not named and not spreads \
+                and not any(c_[0] == "star" for c_ in args[0][1]):
+            return ("sub", ("ext", "numpy.c_"), ("tuple", tuple(args[0][1])))
         if not named and not spreads and not any(a[0] == "star" for a in args):
             if f in (("builtin", "max"), ("builtin", "min")) and f[1] not in self.env and len(args) == 1 and args[0][0] in ("tuple", "list") \
                     and len(args[0][1]) >= 2 and not any(c_[0] == "star" for c_ in args[0][1]):
